@@ -228,7 +228,8 @@ class BitStringEncoder(AbstractItemEncoder):
         while stop < valueLength:
             start = stop
             stop = min(start + maxChunkSize * 8, valueLength)
-            substrate += encodeFun(alignedValue[start:stop], asn1Spec, **options)
+            # the chunks are value objects carrying the base tag only
+            substrate += encodeFun(alignedValue[start:stop], **options)
 
         return substrate, True, True
 
